@@ -40,6 +40,18 @@
    i.e. when the LAST clone goes.  The unrepaired `Drop for SubscriptionSink` (any clone removes the entry) is kept
    as `drop_sink_old` / `step_old` so that the history stays visible (C06_stays_active_refuted_old).
 
+   THREADS.  The subscriber table is one mutex-protected map per method, touched from whatever thread runs the event
+   (accept's insert, the unsubscribe callback's remove, the drop guard's remove).  HOW each of the three sites takes the
+   mutex is read from the source on every check (tools/translators/table_ops.py -> Gen/TableOpsGen.table_ops_gen, a
+   Model/TableOps.table_ops) and INTERPRETED by `step_core_g ops old contended`: `contended` says that another thread is
+   inside a critical section of the table while the event runs.  With `TLockThen op` the event waits and carries the
+   operation out (contended or not); with `TTryLockThen op` a contended event SKIPS it (accept: no entry; unsubscribe:
+   answers false, entry stays; guard drop: entry stays although the last sink is gone).  `step` / `step_old` / `run` are
+   the uncontended instances (one thread: what the extracted model and the harness-sequenced engine run);
+   `step_c` / `run_c` take events `(act, contended)` with arbitrary flags.  Proofs/SubBookFacts.v proves that for the
+   generated record (every site `TLockThen`) the flags make no difference (contended_erasure), which is false -- and
+   does not build -- as soon as one site is a try_lock.
+
    Left out (stated as ASSUMPTIONS in tools/props/c04.py, c06.py):
    * back-pressure: the queue is unbounded here (message_buffer_capacity); a sender blocked on a full buffer is a
      step that has not happened yet.  try_send's `Full` error is therefore not modelled;
@@ -54,7 +66,7 @@
    * who abandons a call and what it answers is the environment's business: the model enqueues the answer of the
      harness's middleware (error 44) on the connection, nothing else about the middleware is modelled. *)
 From Coq Require Import List NArith ZArith Bool Arith.
-From JV Require Import Model.AcceptSteps Gen.AcceptOrderGen.
+From JV Require Import Model.AcceptSteps Gen.AcceptOrderGen Model.TableOps Gen.TableOpsGen.
 Import ListNotations.
 
 (* ---------- frames ---------- *)
@@ -232,6 +244,16 @@ Definition drop_sink (s : st) (h : nat) (b : sub) (k : N) : st :=
     (fun x => rel_sub r (if last then sb_unsub true (sb_sinks [] x) else sb_sinks rest x))
     (rel_conn r)
     (if last && negb (s_unsubscribed b) then remove_key (key_of b) (table s) else table s).
+(* the guard's removal SKIPPED (a `try_lock` that found the table's mutex held by another thread): the last clone and
+   the permit go as in drop_sink, the table is not touched, and the entry -- owner of the liveness receiver -- stays *)
+Definition drop_sink_skipped (s : st) (h : nat) (b : sub) (k : N) : st :=
+  let rest := removeN k (s_sinks b) in
+  let last := is_nil rest in
+  let r := last && s_has_permit b in
+  apply s h b
+    (fun x => rel_sub r (sb_sinks rest x))
+    (rel_conn r)
+    (table s).
 (* unrepaired tree: `impl Drop for SubscriptionSink` removes the entry when ANY clone is dropped while the
    subscription is active, which closes the liveness channel the remaining clones look at *)
 Definition drop_sink_old (s : st) (h : nat) (b : sub) (k : N) : st :=
@@ -285,7 +307,8 @@ Fixpoint accept_run (op call : bool) (b : sub) (l : list accept_step)
   end.
 
 (* ---------- one step, before the graceful-stop bookkeeping ---------- *)
-Definition step_core (old : bool) (s : st) (a : act) : st * list obs :=
+(* ops: how each site takes the table's mutex (read from the source); contended: another thread holds it right now *)
+Definition step_core_g (ops : table_ops) (old contended : bool) (s : st) (a : act) : st * list obs :=
   match a with
   | SubscribeCall c req =>
       match nth_error (conns s) c with
@@ -307,11 +330,14 @@ Definition step_core (old : bool) (s : st) (a : act) : st * list obs :=
           if holds_pending (s_state b) then
             let r := accept_run (conn_open s (s_conn b)) (call_waiting (s_state b)) b accept_phase1
                                 (fun x => x) (fun cn => cn) (table s) in
+            (* the only step of accept() that touches the table is its insert: skipped = table as it was *)
             if ar_ok r then
-              (apply s h b (fun x => sb_state SAccepting (ar_sub r x)) (ar_conn r) (ar_table r), [OAck])
+              (apply s h b (fun x => sb_state SAccepting (ar_sub r x)) (ar_conn r)
+                 (when_performed contended (at_accept ops) (ar_table r) (table s)), [OAck])
             else    (* Err(PendingSubscriptionAcceptError): what was done stays done; the pending sink and its permit are gone *)
               (apply s h b (fun x => sb_fail SDone (s_has_permit b) (ar_sub r x))
-                 (fun cn => rel_conn (s_has_permit b) (ar_conn r cn)) (ar_table r), [OAccept h false])
+                 (fun cn => rel_conn (s_has_permit b) (ar_conn r cn))
+                 (when_performed contended (at_accept ops) (ar_table r) (table s)), [OAccept h false])
           else (s, [])
       | None => (s, [])
       end
@@ -321,7 +347,8 @@ Definition step_core (old : bool) (s : st) (a : act) : st * list obs :=
           match s_state b with
           | SAccepting =>
               let r := accept_run (conn_open s (s_conn b)) true b accept_phase2 (fun x => x) (fun cn => cn) (table s) in
-              (apply s h b (ar_sub r) (ar_conn r) (ar_table r), [OAccept h true])
+              (apply s h b (ar_sub r) (ar_conn r) (when_performed contended (at_accept ops) (ar_table r) (table s)),
+               [OAccept h true])
           | _ => (s, [])
           end
       | None => (s, [])
@@ -378,7 +405,8 @@ Definition step_core (old : bool) (s : st) (a : act) : st * list obs :=
       | Some b =>
           (* a clone with a send in flight is borrowed by that future and cannot be dropped *)
           if memN k (s_sinks b) && negb (memN k (map fst (s_inflight b))) then
-            ((if old then drop_sink_old else drop_sink) s h b k, [OAck])
+            ((if old then drop_sink_old
+              else when_performed contended (at_guard_drop ops) drop_sink drop_sink_skipped) s h b k, [OAck])
           else (s, [])
       | None => (s, [])
       end
@@ -434,6 +462,7 @@ Definition step_core (old : bool) (s : st) (a : act) : st * list obs :=
       match nth_error (conns s) c with
       | Some cn =>
           if c_open cn && negb (stopped s) then
+           if when_performed contended (at_unsubscribe ops) true false then
             let r := mem_key (c, target) (table s) in
             (* subscribers.lock().remove(&key).is_some(): dropping the entry closes the liveness channel of that
                subscription (there is at most one with this key) *)
@@ -442,6 +471,8 @@ Definition step_core (old : bool) (s : st) (a : act) : st * list obs :=
                                                      match s_state b with SActive => true | _ => false end
                                                  then sb_unsub true b else b) (subs s1)) in
             (upd_conn s2 c (c_enq (FUnsub req r)), [OUnsubAnswer c req target r])
+           else   (* the table was not looked at: the callback answers false and nothing changes *)
+            (upd_conn s c (c_enq (FUnsub req false)), [OUnsubAnswer c req target false])
           else (s, [])
       | None => (s, [])
       end
@@ -482,8 +513,17 @@ Fixpoint settle_from (s : st) (c : nat) (cs : list conn) : list conn * list obs 
 Definition settle (s : st) : st * list obs :=
   if stopped s then let '(cs, o) := settle_from s 0 (conns s) in (set_conns s cs, o) else (s, []).
 
+(* one thread: no event is ever contended *)
+Definition step_core (old : bool) (s : st) (a : act) : st * list obs := step_core_g table_ops_gen old false s a.
+
 Definition step_gen (old : bool) (s : st) (a : act) : st * list obs :=
   let '(s1, o1) := step_core old s a in
+  let '(s2, o2) := settle s1 in
+  (s2, o1 ++ o2).
+
+(* thread-level: the event carries its `contended` bit *)
+Definition step_x (ops : table_ops) (contended : bool) (s : st) (a : act) : st * list obs :=
+  let '(s1, o1) := step_core_g ops false contended s a in
   let '(s2, o2) := settle s1 in
   (s2, o1 ++ o2).
 
@@ -508,3 +548,10 @@ Fixpoint drain_from (c : nat) (cs : list conn) : list act :=
   | cn :: rest => repeat (WriterStep c) (length (c_queue cn)) ++ drain_from (S c) rest
   end.
 Definition drain_trace (s : st) : list act := drain_from 0 (conns s).
+
+(* ---------- thread-level traces: every event with its `contended` bit ---------- *)
+Definition cact : Type := (act * bool)%type.
+Definition run_x (ops : table_ops) (s : st) (tr : list cact) : st * list obs :=
+  fold_left (fun so e => let '(s', o') := step_x ops (snd e) (fst so) (fst e) in (s', snd so ++ o')) tr (s, []).
+Definition step_c (s : st) (e : cact) : st * list obs := step_x table_ops_gen (snd e) s (fst e).
+Definition run_c : st -> list cact -> st * list obs := run_x table_ops_gen.
